@@ -93,14 +93,19 @@ def monitor_cases(rng, tier, stats):
             rng.choice(["truediv", "rtruediv", "fn", "fn-prec", "fn-guess"])
         tol = 1e-12 if mode in ("truediv", "rtruediv") else 10.0 ** rng.uniform(-10, -4)
         seed = rng.randrange(1 << 30)
+        heavy = False
+        if c in (4, 10, 16):
+            # deterministic member: a quotient of HIGH TT rank (order 4, modes 6,10,10,6, quotient rank ~60): the solver needs many sweeps in
+            # which the rank grows by the kick only and the residual falls slowly — it must still run until the tolerance is met
+            d, N, mode, tol, heavy = 4, [6, 10, 10, 6], {4: "truediv", 10: "fn", 16: "rtruediv"}[c], 1e-12, True
         box = {}
-        label = "%s/d%d" % (mode, d)
+        label = "%s/d%d%s" % (mode, d, "/high-rank" if heavy else "")
 
-        def impl(N=N, mode=mode, tol=tol, seed=seed, box=box, d=d, c=c):
+        def impl(N=N, mode=mode, tol=tol, seed=seed, box=box, d=d, c=c, heavy=heavy):
             tn.manual_seed(seed); np.random.seed(seed % (2 ** 32))
-            z = torchtt.randn(N, [1] + [rng.randint(1, 3)] * (d - 1) + [1])
+            z = torchtt.randn(N, [1] + [3 if heavy else rng.randint(1, 3)] * (d - 1) + [1])
             y = (z * z + 1.0).round(1e-13)
-            x = torchtt.randn(N, [1] + [rng.randint(1, 4)] * (d - 1) + [1])
+            x = torchtt.randn(N, [1] + [2 if heavy else rng.randint(1, 4)] * (d - 1) + [1])
             if mode == "truediv":
                 q = x / y; num = x
             elif mode == "rtruediv":
